@@ -26,15 +26,22 @@ func (fold *fold) Exit(node *Node) {
 		newNode.SetType(leafType)
 	}
 
+	// Integer literals passed as arguments may have been retyped (e.g. to float64);
+	// arithmetic on them in int would not match what the VM computes.
+	plain := func(i *IntegerNode) bool {
+		t := i.Type()
+		return t == nil || (t.Kind() == reflect.Int && t.PkgPath() == "")
+	}
+
 	switch n := (*node).(type) {
 	case *UnaryNode:
 		switch n.Operator {
 		case "-":
-			if i, ok := n.Node.(*IntegerNode); ok {
+			if i, ok := n.Node.(*IntegerNode); ok && plain(i) {
 				patchWithType(&IntegerNode{Value: -i.Value}, n.Node.Type())
 			}
 		case "+":
-			if i, ok := n.Node.(*IntegerNode); ok {
+			if i, ok := n.Node.(*IntegerNode); ok && plain(i) {
 				patchWithType(&IntegerNode{Value: i.Value}, n.Node.Type())
 			}
 		}
@@ -42,8 +49,8 @@ func (fold *fold) Exit(node *Node) {
 	case *BinaryNode:
 		switch n.Operator {
 		case "+":
-			if a, ok := n.Left.(*IntegerNode); ok {
-				if b, ok := n.Right.(*IntegerNode); ok {
+			if a, ok := n.Left.(*IntegerNode); ok && plain(a) {
+				if b, ok := n.Right.(*IntegerNode); ok && plain(b) {
 					patchWithType(&IntegerNode{Value: a.Value + b.Value}, a.Type())
 				}
 			}
@@ -53,20 +60,20 @@ func (fold *fold) Exit(node *Node) {
 				}
 			}
 		case "-":
-			if a, ok := n.Left.(*IntegerNode); ok {
-				if b, ok := n.Right.(*IntegerNode); ok {
+			if a, ok := n.Left.(*IntegerNode); ok && plain(a) {
+				if b, ok := n.Right.(*IntegerNode); ok && plain(b) {
 					patchWithType(&IntegerNode{Value: a.Value - b.Value}, a.Type())
 				}
 			}
 		case "*":
-			if a, ok := n.Left.(*IntegerNode); ok {
-				if b, ok := n.Right.(*IntegerNode); ok {
+			if a, ok := n.Left.(*IntegerNode); ok && plain(a) {
+				if b, ok := n.Right.(*IntegerNode); ok && plain(b) {
 					patchWithType(&IntegerNode{Value: a.Value * b.Value}, a.Type())
 				}
 			}
 		case "/":
-			if a, ok := n.Left.(*IntegerNode); ok {
-				if b, ok := n.Right.(*IntegerNode); ok {
+			if a, ok := n.Left.(*IntegerNode); ok && plain(a) {
+				if b, ok := n.Right.(*IntegerNode); ok && plain(b) {
 					if b.Value == 0 {
 						fold.err = &file.Error{
 							Location: (*node).Location(),
